@@ -294,6 +294,16 @@ class SSeq:
     def _wrap_imm(self, items):
         return make(self.kind, items)
 
+    def partition(self, sep):
+        se = elems_of(sep)
+        k = self.find(sep)
+        if k < 0:
+            return (self._wrap_imm(self.items), self._wrap_imm([]),
+                    self._wrap_imm([]))
+        return (self._wrap_imm(self.items[:k]),
+                self._wrap_imm(self.items[k:k + len(se)]),
+                self._wrap_imm(self.items[k + len(se):]))
+
     def replace(self, old, new, count=-1):
         oe, ne = elems_of(old), elems_of(new)
         if not oe:
@@ -872,6 +882,12 @@ def parse_int(s, base=10):
     if items and type(items[0]) is int and items[0] in (43, 45):
         neg = items[0] == 45
         items = items[1:]
+    if len(items) >= 2 and type(items[0]) is int and items[0] == 48 and \
+            type(items[1]) is int:
+        pc = chr(items[1]).lower()
+        if (base == 16 and pc == 'x') or (base == 2 and pc == 'b') or \
+                (base == 8 and pc == 'o'):
+            items = items[2:]
     if not items:
         raise ValueError('invalid literal for int()')
     val = 0
